@@ -206,6 +206,12 @@ pub struct Decl {
 
 /// A syntactically valid struct / enum / union item with hostile `#[darling ...]` attributes.
 pub fn hostile_decl(rng: &mut Rng) -> Decl {
+    // one declaration in twelve is a well-formed attribute-reading receiver that forwards attributes:
+    // random option soup almost never lands on a combination of options that is accepted as a whole,
+    // and code generation only runs for those
+    if rng.chance(1, 12) {
+        return forwarding_decl(rng);
+    }
     let (gen, wh) = generics(rng);
     let cattrs = attrs(rng, Level::Container, 7);
     let vis = *rng.pick(&["", "pub ", "pub(crate) "]);
@@ -264,5 +270,45 @@ pub fn hostile_decl(rng: &mut Rng) -> Decl {
                 shape: "union".into(),
             }
         }
+    }
+}
+
+/// `attributes(..)` (or none), one of the spellings of `forward_attrs`, an `attrs` field (or none) and a few
+/// plain fields: every combination is either accepted or refused with a diagnostic
+fn forwarding_decl(rng: &mut Rng) -> Decl {
+    let mut copts: Vec<String> = vec![];
+    match rng.below(5) {
+        0 => {}
+        1 => copts.push("attributes()".into()),
+        2 => copts.push("attributes(a, b::c)".into()),
+        _ => copts.push("attributes(a)".into()),
+    }
+    copts.push((*rng.pick(&["forward_attrs", "forward_attrs()", "forward_attrs[]", "forward_attrs{}", "forward_attrs(doc)", "forward_attrs(doc, allow, ::x::y, r#type)", "forward_attrs(doc,)"])).to_string());
+    if rng.chance(1, 4) {
+        copts.push((*rng.pick(&["default", "allow_unknown_fields", "rename_all = \"camelCase\"", "supports(struct_named)"])).to_string());
+    }
+    if rng.coin() {
+        copts.reverse();
+    }
+    let cattr = if rng.chance(1, 4) {
+        copts.iter().map(|o| format!("#[darling({o})] ")).collect::<String>()
+    } else {
+        format!("#[darling({})] ", copts.join(", "))
+    };
+    let mut fields: Vec<String> = vec![];
+    if !rng.chance(1, 5) {
+        fields.push((*rng.pick(&["attrs: Vec<syn::Attribute>", "pub attrs: Vec<syn::Attribute>", "#[darling(with = f)] attrs: usize", "#[darling(with = \"a::f\")] attrs: T"])).to_string());
+    }
+    for name in ["lorem", "r#type", "x1"] {
+        if rng.coin() {
+            fields.push(format!("{name}: {}", rng.pick(&["u8", "String", "Option<u8>", "bool"])));
+        }
+    }
+    if rng.coin() {
+        fields.reverse();
+    }
+    Decl {
+        src: format!("{cattr}pub struct Recv {{ {} }}", fields.join(", ")),
+        shape: "forwarding-struct".into(),
     }
 }
